@@ -163,7 +163,8 @@ example : let m : Msg := ⟨.request, .binding, zeros 12,
 theorem const_turn_channels :
     turnRxChannelLo = 0x4000 ∧ turnRxChannelHi = 0x7FFF ∧ turnChannelFirst = 0x4000 ∧
     turnChannelLast = turnRxChannelHi ∧ turnChannelWrapTo = turnRxChannelLo ∧
-    turnRequestedTransportUdp = 17 ∧ turnDefaultLifetime = 600 := by decide
+    turnRequestedTransportUdp = 17 ∧ turnDefaultLifetime = 600 ∧
+    iceUriDefaultPortPlain = 3478 ∧ iceUriDefaultPortSecure = 5349 := by decide
 
 /-- **channeldata_roundtrip**: a ChannelData frame built by `send_channel_data` for any channel in the
 TURN range and any payload (< 2^16 bytes) is recognised by the receive path as exactly that channel and
